@@ -276,6 +276,16 @@ class Ctx:
                 continue
             if not proj:
                 return {"k": "copy", "l": base, "p": []} if base != o["l"] else o
+            # `(Try::branch(x) as Continue).0` is the Ok/Some payload of x
+            if len(all_ds) == 1 and all_ds[0][1] == "call" and all_ds[0][2].path == "std::ops::Try::branch" and len(proj) >= 2 and \
+                    isinstance(proj[0], dict) and proj[0].get("variant") == "Continue" and isinstance(proj[1], dict) and "f" in proj[1]:
+                a0 = all_ds[0][2].args[0]
+                if a0.get("k") in ("copy", "move"):
+                    ty0 = fn.locals[a0["l"]].get("path", "")
+                    v0 = "Ok" if ty0.endswith("Result") else "Some" if ty0.endswith("Option") else None
+                    if v0 is not None:
+                        o = {"k": "copy", "l": a0["l"], "p": list(a0["p"]) + [{"variant": v0, "vi": 0 if v0 == "Ok" else 1}, proj[1]] + list(proj[2:])}
+                        continue
             ds = [d for d in all_ds if d[1] == "assign" and d[2]["rv"]["k"] == "agg"]
             nxt, used = None, 0
             if len(proj) >= 2 and isinstance(proj[0], dict) and "variant" in proj[0] and isinstance(proj[1], dict) and "f" in proj[1]:
